@@ -117,6 +117,21 @@ pub async fn restore(
             continue;
         }
         let path = destination.join(&entry.apath[1..]);
+        if options.overwrite {
+            // The destination can already hold symlinks, for example from an earlier
+            // restore of a version in which this path, or a directory above it, was a
+            // symlink. Writing through one could change files outside the destination.
+            if let Some(link) = existing_symlink_on_path(destination, &entry) {
+                monitor.error(Error::InvalidMetadata {
+                    details: format!(
+                        "Not restoring {:?} because {:?} is a symlink in the destination",
+                        entry.apath(),
+                        link
+                    ),
+                });
+                continue;
+            }
+        }
         match entry.kind() {
             Kind::Dir => {
                 monitor.count(Counter::Dirs, 1);
@@ -182,6 +197,27 @@ fn symlink_ancestor<'a>(symlinks: &'a HashSet<String>, apath: &Apath) -> Option<
         parent = &parent[..pos];
         if let Some(link) = symlinks.get(parent) {
             return Some(link);
+        }
+    }
+    None
+}
+
+/// When restoring over an existing tree: if a directory above the entry, or the place where
+/// the entry itself would be created as a directory or written as a file, is already a
+/// symlink in the destination, return the path of that symlink.
+fn existing_symlink_on_path(destination: &Path, entry: &IndexEntry) -> Option<PathBuf> {
+    let is_symlink = |path: &Path| {
+        path.symlink_metadata()
+            .is_ok_and(|metadata| metadata.file_type().is_symlink())
+    };
+    let mut path = destination.to_owned();
+    let mut components = entry.apath[1..].split('/').peekable();
+    while let Some(component) = components.next() {
+        path.push(component);
+        let last = components.peek().is_none();
+        // Creating a symlink over an existing one fails cleanly without following it.
+        if (!last || entry.kind() != Kind::Symlink) && is_symlink(&path) {
+            return Some(path);
         }
     }
     None
